@@ -10,53 +10,8 @@ use alloc::{boxed::Box, collections::*, string::String, vec::Vec};
 use core::{alloc::Layout, ptr::NonNull};
 use parity_scale_codec::{Compact, Decode, Encode, Input};
 
-extern "C" {
-	fn __rust_alloc(size: usize, align: usize) -> *mut u8;
-	fn __rust_alloc_zeroed(size: usize, align: usize) -> *mut u8;
-	fn __rust_realloc(ptr: *mut u8, old_size: usize, align: usize, new_size: usize) -> *mut u8;
-}
-macro_rules! stubset {
-	($m:ident, $allow:expr) => {
-		pub mod $m {
-			use super::*;
-			pub const ALLOW: usize = $allow;
-			pub unsafe fn alloc(l: Layout) -> *mut u8 {
-				assert!(l.size() <= ALLOW, "heap request exceeds the allowance for this input");
-				__rust_alloc(l.size(), l.align())
-			}
-			pub unsafe fn alloc_zeroed(l: Layout) -> *mut u8 {
-				assert!(l.size() <= ALLOW, "heap request exceeds the allowance for this input");
-				__rust_alloc_zeroed(l.size(), l.align())
-			}
-			pub unsafe fn realloc(p: *mut u8, l: Layout, new_size: usize) -> *mut u8 {
-				assert!(new_size <= ALLOW, "heap request exceeds the allowance for this input");
-				__rust_realloc(p, l.size(), l.align(), new_size)
-			}
-			pub unsafe fn realloc_nonnull(p: NonNull<u8>, l: Layout, new_size: usize) -> *mut u8 {
-				assert!(new_size <= ALLOW, "heap request exceeds the allowance for this input");
-				__rust_realloc(p.as_ptr(), l.size(), l.align(), new_size)
-			}
-		}
-	};
-}
-pub const KIB16: usize = 16 * 1024;
-stubset!(le_64, 64);
-stubset!(le_256, 256);
-stubset!(le_16k, KIB16 + 64);
-stubset!(le_32k, 2 * KIB16 + 128);
-
-/// attach one stub set to a harness
-macro_rules! with_stubs {
-	($set:ident, $(#[$m:meta])* pub fn $name:ident() $body:block) => {
-		#[kani::proof]
-		$(#[$m])*
-		#[kani::stub(alloc::alloc::alloc, $set::alloc)]
-		#[kani::stub(alloc::alloc::alloc_zeroed, $set::alloc_zeroed)]
-		#[kani::stub(alloc::alloc::realloc, $set::realloc)]
-		#[kani::stub(alloc::alloc::realloc_nonnull, $set::realloc_nonnull)]
-		pub fn $name() $body
-	};
-}
+use crate::stubs::*;
+use crate::with_stubs;
 
 /// hostile count through a one-byte prefix (63, the largest) or, for Vec element types, a huge
 /// count through decode_vec_with_len; <= L payload bytes; slice-like or unknown-length input.
